@@ -71,9 +71,11 @@ func RSASignSHA1Digest(sha1Digest []byte, keyFile, passphrase string) ([]byte, e
 		if err != nil {
 			return nil, fmt.Errorf("parse PKCS#8 private key: %w", err)
 		}
-		privTmp, ok := privAny.(crypto.Signer)
+		// the signature is stored and verified as RSA PKCS#1 v1.5: any other
+		// kind of key (ECDSA, Ed25519) would produce one apk cannot verify
+		privTmp, ok := privAny.(*rsa.PrivateKey)
 		if !ok {
-			return nil, fmt.Errorf("cannot sign with given private key")
+			return nil, errNoRSAKey
 		}
 		priv = privTmp
 	default:
